@@ -221,7 +221,9 @@ Inductive code_request : closeError -> Prop :=
 | CR_reset_transport : code_request {| ce_err := EStatelessReset; ce_immediate := true |}           (* Transport.maybeHandleStatelessReset: destroy *)
 | CR_reset_conn : code_request {| ce_err := EStatelessReset; ce_immediate := false |}               (* handleShortHeaderPacket returns it as error *)
 | CR_destroy_nil : code_request {| ce_err := ENil; ce_immediate := true |}                          (* doDial: ctx cancelled *)
-| CR_destroy_other t : code_request {| ce_err := EOther t; ce_immediate := true |}.                 (* Transport.close, send queue error, StartHandshake failure *)
+| CR_destroy_other t : code_request {| ce_err := EOther t; ce_immediate := true |}                  (* Transport.close, send queue error, StartHandshake failure *)
+| CR_start_failure_transport c : code_request {| ce_err := ETransport false c; ce_immediate := true |}. (* run(): StartHandshake / the first
+      handleHandshakeEvents failed with a *qerr.TransportError (a TLS alert as a crypto error): destroyImpl(err) *)
 
 (** timeouts, remote closes, destroy(), stateless resets and abandoned attempts never put anything on the wire, whoever asks *)
 Lemma silent_closes : forall client sf ampl ce,
@@ -654,12 +656,14 @@ Definition round_events (s : st) (r : round) : list ev :=
   EvWake (ka_due s r) (rd_pto r) :: EvSentAE (ka_due s r) ::
   map (fun w => EvWake (fst w) (snd w)) (rd_wakes r) ++ [EvRecv (rd_recv r)].
 
-(** the answer to the PING arrives within idleTimeout - keepAliveInterval(effective) of it; the loop may be woken
-    any number of times in between, with any PTO *)
+(** the answer to the PING arrives within (effective idle period) - (effective keep-alive interval) of it, both with the
+    round's PTO: max(idleTimeout, 3 PTO) - max(keepAliveInterval, 1.5 PTO) — on a path whose PTO is large the idle period
+    is 3 PTO, not idleTimeout. The loop may be woken any number of times in between; the PTO does not shrink before the
+    answer (it only changes when an ACK is received). *)
 Definition round_ok (s : st) (r : round) : Prop :=
   0 <= rd_pto r /\ ka_due s r <= rd_recv r /\
-  rd_recv r - ka_due s r < idleTimeout s - kaEff s (rd_pto r) /\
-  Forall (fun w => ka_due s r <= fst w <= rd_recv r /\ 0 <= snd w) (rd_wakes r).
+  rd_recv r - ka_due s r < idleEff s (rd_pto r) - kaEff s (rd_pto r) /\
+  Forall (fun w => ka_due s r <= fst w <= rd_recv r /\ rd_pto r <= snd w) (rd_wakes r).
 
 Fixpoint run_rounds (s : st) (rs : list round) : st :=
   match rs with
@@ -679,11 +683,11 @@ Definition pinged (s : st) (lr idle : Z) : Prop :=
 
 (** wake-ups between the PING and its answer change nothing (the idle branch is not reached) *)
 Lemma wakes_noop : forall ws s lr idle hi,
-  pinged s lr idle -> hi < lr + idle ->
-  Forall (fun w => fst w <= hi /\ 0 <= snd w) ws ->
+  pinged s lr idle ->
+  Forall (fun w => fst w <= hi /\ hi < lr + Z.max idle (snd w * 3)) ws ->
   run s (map (fun w => EvWake (fst w) (snd w)) ws) = s.
 Proof.
-  induction ws as [|w ws IH]; intros s lr idle hi P Hhi F; [reflexivity|].
+  induction ws as [|w ws IH]; intros s lr idle hi P F; [reflexivity|].
   inversion F as [|? ? [Hw Hp] F']; subst. cbn [map]. rewrite run_cons.
   assert (E : step s (EvWake (fst w) (snd w)) = s).
   { destruct P as (Hh & Hc & Hk & Hl & Hi & Hs). cbn [step]. rewrite Hc.
@@ -719,17 +723,16 @@ Proof.
   assert (C2 : cf s2 = cf s /\ kaInterval s2 = kaInterval s).
   { unfold s2. cbn [step]. destruct (firstAE s1 =? 0); unfold s1; cbn; auto. }
   rewrite run_app.
-  assert (Hhi : rd_recv r < lastRecv s + idleTimeout s) by (unfold ka_due in *; lia).
-  assert (F : Forall (fun w => fst w <= rd_recv r /\ 0 <= snd w) (rd_wakes r)).
-  { eapply Forall_impl; [|exact Hw]. cbn. intros a [[_ A] B]. auto. }
-  pose proof (wakes_noop (rd_wakes r) s2 _ _ _ P2 Hhi F) as S3.
+  assert (F : Forall (fun w => fst w <= rd_recv r /\ rd_recv r < lastRecv s + Z.max (idleTimeout s) (snd w * 3)) (rd_wakes r)).
+  { eapply Forall_impl; [|exact Hw]. cbn. intros a [[_ A] B]. unfold ka_due, idleEff, kaEff in *. lia. }
+  pose proof (wakes_noop (rd_wakes r) s2 _ _ _ P2 F) as S3.
   rewrite S3. rewrite run_cons. cbn [run fold_left step].
   destruct P2 as (Hh2 & Hc2 & Hk2 & Hl2 & Hi2 & Hs2). destruct C2 as [C2a C2b].
   unfold ka_state, upd_timers. cbn [cf hsComplete idleTimeout kaInterval creation lastRecv firstAE kaSent blocked pacing sentFirst closeErr].
   rewrite C2a, C2b, Hi2, Hh2, Hc2. repeat split; auto. unfold ka_due, kaEff in Hr. lia.
 Qed.
 
-(** keep-alive enabled, block mode none, every PING answered within idleTimeout - keepAliveInterval:
+(** keep-alive enabled, block mode none, every PING answered within (effective idle period - effective interval):
     each round queues its PING at lastPacketReceived + max(keepAliveInterval, 1.5 PTO) and no history of such
     rounds — with arbitrary extra wake-ups — ever reaches the idle-timeout branch *)
 Lemma keepalive_prevents_idle : forall rs s, ka_state s -> rounds_ok s rs ->
@@ -743,6 +746,26 @@ Qed.
 Lemma rounds_ping_each : forall s r, ka_state s -> round_ok s r ->
   decide s (lastRecv s + Z.max (kaInterval s) (rd_pto r * 3 / 2)) (rd_pto r) = DKeepAlive.
 Proof. intros s r K H. destruct (round_preserves s r K H) as [D _]. exact D. Qed.
+
+(** the keep-alive branch precedes the timeout branches: when a PING is due AND the idle deadline has passed (possible when
+    the timer was armed for the idle timeout because sending is blocked, or the loop was late), the iteration queues the
+    PING and the idle timeout is declared by the NEXT iteration, at the same instant (the timer is re-armed for a
+    deadline that has passed) *)
+Lemma idle_after_keepalive_iteration : forall s now pto,
+  hsComplete s = true -> closeErr s = None -> decide s now pto = DKeepAlive -> nextIdle s pto <= now ->
+  closeErr (step s (EvWake now pto)) = None /\
+  closeErr (step (step s (EvWake now pto)) (EvWake now pto)) = Some {| ce_err := EIdle; ce_immediate := true |}.
+Proof.
+  intros s now pto Hh Hc D Hn. cbn [step]. rewrite Hc, D. split; [exact Hc|].
+  set (s1 := upd_timers s (lastRecv s) (firstAE s) true (blocked s)).
+  assert (C1 : closeErr s1 = None) by exact Hc. rewrite C1.
+  assert (D1 : decide s1 now pto = DIdleTimeout).
+  { unfold decide, nextKA. cbn [kaSent s1 upd_timers]. rewrite orb_true_r. cbn [Z.eqb negb andb].
+    assert (H1 : hsComplete s1 = true) by exact Hh. rewrite H1. cbn [negb andb orb].
+    assert (X : (nextIdle s1 pto <=? now) = true) by (unfold nextIdle, idleStart, idleEff in *; cbn in *; lia).
+    rewrite X. reflexivity. }
+  rewrite D1. unfold destroyImpl, setCloseError. rewrite C1. reflexivity.
+Qed.
 
 (** ** 4a. History-level statements *)
 
@@ -1008,14 +1031,28 @@ Proof.
     rewrite X. destruct (expiry <=? elapsed); reflexivity.
 Qed.
 
-(** a handshake that cannot even be started: nothing is sent, nothing stays registered, and the API objects
-    are closed with the very error Dial returns *)
-Lemma start_failure_released : forall client sf ampl t elapsed expiry a c,
-  exit_routing client sf ampl (start_failure (EOther t)) elapsed expiry = 0 /\
-  exit_fanout (start_failure (EOther t)) = EOther t /\ ctx_cause (start_failure (EOther t)) = EOther t /\
-  close_action client sf ampl (start_failure (EOther t)) <> ActSendClose a c.
+(** a handshake that cannot even be started, whatever local error the TLS stack reports (a plain error, or a TLS alert as
+    a local transport error): nothing is sent, nothing stays registered, and the API objects and the context get the
+    very error Dial returns *)
+Lemma start_failure_released : forall client sf ampl e elapsed expiry a c,
+  is_remote e = false -> e <> ENil ->
+  exit_routing client sf ampl (start_failure e) elapsed expiry = 0 /\
+  exit_fanout (start_failure e) = e /\ ctx_cause (start_failure e) = e /\
+  close_action client sf ampl (start_failure e) <> ActSendClose a c.
 Proof.
-  intros. split; [|split; [reflexivity|split; [reflexivity|]]].
-  - unfold exit_routing, close_action. cbn. destruct (expiry <=? elapsed); reflexivity.
+  intros client sf ampl e elapsed expiry a c Hr Hn.
+  assert (M : mapped_err (start_failure e) = e) by (destruct e; try reflexivity; contradiction).
+  split; [|split; [exact M|split]].
+  - unfold exit_routing, close_action. rewrite M, Hr. cbn. destruct (expiry <=? elapsed); reflexivity.
+  - unfold ctx_cause. destruct e; try exact M; contradiction.
   - apply silent_closes. left. reflexivity.
 Qed.
+
+(** the context cause and the error handed to the API objects are the same error for every close except the nil close
+    (destroy(nil): dial cancellation), where cancel(nil) records context.Canceled while the API objects get ApplicationError{} *)
+Lemma ctx_cause_is_mapped : forall ce, ce_err ce <> ENil -> ctx_cause ce = mapped_err ce.
+Proof. intros [e i] H. unfold ctx_cause. cbn in *. destruct e; try reflexivity. contradiction. Qed.
+
+Lemma nil_close_two_causes : forall i,
+  ctx_cause {| ce_err := ENil; ce_immediate := i |} = ECanceled /\ mapped_err {| ce_err := ENil; ce_immediate := i |} = EApp false 0.
+Proof. intros i. split; reflexivity. Qed.
